@@ -16,6 +16,7 @@
 -/
 import SpyneModel.Text
 import SpyneModel.Prim
+import SpyneModel.Leaf
 namespace SpyneModel.Flat
 open SpyneModel
 
@@ -45,8 +46,11 @@ structure Facts03 where
   keyOrder : KeyOrder
   tagScope : TagScope
   freqScope : FreqScope
-  /-- `Integer.Attributes.max_str_len` -/
-  intMaxStrLen : Nat
+  /-- the switches of the primitive text codecs (C08), as regenerated for the current tree -/
+  leaf : Facts08
+  /-- an instance made by `key=empty` or made up by the strict branch gets its own entry in the
+      frequency table (so its mandatory members are checked)                             (good: true) -/
+  freqTouch : Bool
   /-- the value that spells an empty array / an object without members -/
   emptyMarker : Text
   /-- characters that separate the pairs of a query string -/
@@ -183,19 +187,12 @@ def pyInsert {α : Type} (l : List α) (i : Nat) (x : α) : List α := l.take i 
 
 /-! ## Types and instances -/
 
-/-- primitive kinds of the model: `Integer`, `Unicode`, `Boolean` -/
-inductive PK where
-  | int | str | bool
-  deriving Repr, DecidableEq
+/-- primitive member types: the shared `PrimTy` (kind and facets) -/
+abbrev PK := SpyneModel.PrimTy
 
-/-- native value of a primitive; `none` = Python `None` -/
-inductive Leaf where
-  | none
-  | int (i : Int)
-  | str (s : Text)
-  | bool (b : Bool)
-  | dt (x : DateTime)     -- a `datetime` (only as an out-header / return value: no `PK` reads it)
-  deriving Repr, DecidableEq
+/-- native value of a primitive: the shared `Val` (`none` = Python `None`; only its primitive
+    constructors occur at leaves) -/
+abbrev Leaf := SpyneModel.Val
 
 /-- occurrence attributes of a member. `many` = `Array(T)` or `max_occurs > 1`;
     `maxOcc = none` is `unbounded` -/
@@ -203,6 +200,7 @@ structure Occ where
   many : Bool
   minOcc : Nat
   maxOcc : Option Nat
+  nillable : Bool := true
   deriving Repr, DecidableEq
 
 /-- a member type: a primitive, or a class (identified by `cid`) with named members in order -/
@@ -264,13 +262,14 @@ structure Member where
   prim : Option PK
   many : Bool
   fields : List Fld
+  nillable : Bool := true
   deriving Repr
 
 mutual
 /-- one queue element: the entry of the member itself, then (for classes) its members -/
 def stiTy (delim : Text) (path : List Text) (occ : Occ) : Ty → List (Text × Member)
-  | .prim p => [(joinKey delim path, ⟨path, some p, occ.many, []⟩)]
-  | .obj _ fs => (joinKey delim path, ⟨path, none, occ.many, fs⟩) :: stiFields delim path fs
+  | .prim p => [(joinKey delim path, ⟨path, some p, occ.many, [], occ.nillable⟩)]
+  | .obj _ fs => (joinKey delim path, ⟨path, none, occ.many, fs, occ.nillable⟩) :: stiFields delim path fs
 def stiFields (delim : Text) (path : List Text) : List Fld → List (Text × Member)
   | [] => []
   | (n, occ, t) :: r => stiTy delim (path ++ [n]) occ t ++ stiFields delim path r
@@ -304,39 +303,42 @@ def boolFromHttp (F : Facts03) (s : Text) : Outcome Bool :=
   else if F.boolFormWords && l = "off".toList then .ok false
   else .fault
 
-/-- `int(string)` behind the length guard (C08's `pyInt`) -/
-def intFromHttp (F : Facts03) (s : Text) : Outcome Leaf :=
-  if s.isEmpty && F.intEmptyIsNone then .ok .none
-  else if s.length > F.intMaxStrLen then .fault
-  else match pyInt s with
-    | some i => .ok (.int i)
-    | none => .fault
-
-/-- `self.from_unicode(member.type, v2)`; `none` is a key without `=` -/
+/-- `self.from_unicode(member.type, v2)` as HttpRpc has it; `none` is a key without `=`.
+    HttpRpc overrides the integer reader (`''` is None) and the boolean reader (form words);
+    everything else is the shared leaf codec (`leafFromText`, ByteArray with its own encoding). -/
 def leafFrom (F : Facts03) (p : PK) : Option Text → Outcome Leaf
   | none => .ok .none
   | some s =>
     match p with
-    | .int => intFromHttp F s
-    | .str => .ok (.str s)
-    | .bool =>
-      match boolFromHttp F s with
-      | .ok b => .ok (.bool b)
-      | .fault => .fault
-      | .crash e => .crash e
+    | .integer k _ =>
+      if s.isEmpty && F.intEmptyIsNone then .ok .none else (intFromText F.leaf k s).map Val.int
+    | .boolean => (boolFromHttp F s).map Val.bool
+    | p => leafFromText F.leaf p s
 
 /-- `self.to_unicode(cls, value)` -/
-def leafText : Leaf → Option Text
-  | .none => none
-  | .int i => some (intText i)
-  | .str s => some s
-  | .bool b => some (boolToText b)
-  | .dt x => some (isoDateTime x)
+def leafText (F : Facts03) (p : PK) (v : Leaf) : Option Text := leafToText F.leaf p v
 
-/-- `_to_native_values` for the three kinds (no facets: soft validation of the leaf is vacuous) -/
-def toNative (F : Facts03) (p : PK) : List (Option Text) → Outcome (List Leaf)
+/-- `member.type.validate_string(member.type, v2)` (raw text; `None` passes iff nillable) -/
+def softString (F : Facts03) (nillable : Bool) (p : PK) : Option Text → Bool
+  | none => nillable
+  | some s => validateString F.leaf p s
+
+/-- `member.type.validate_native(member.type, native_v2)` -/
+def softNative (nillable : Bool) (p : PK) : Leaf → Bool
+  | .none => nillable
+  | v => validateNative p v
+
+/-- one value in `_to_native_values`: validate the text, parse, validate the native value -/
+def nativeOf (F : Facts03) (soft nillable : Bool) (p : PK) (v2 : Option Text) : Outcome Leaf :=
+  if soft && !softString F nillable p v2 then .fault
+  else obind (leafFrom F p v2) fun n =>
+    if soft && !softNative nillable p n then .fault else .ok n
+
+/-- `_to_native_values` -/
+def toNative (F : Facts03) (soft nillable : Bool) (p : PK) : List (Option Text) → Outcome (List Leaf)
   | [] => .ok []
-  | v :: r => obind (leafFrom F p v) fun x => obind (toNative F p r) fun xs => .ok (x :: xs)
+  | v :: r => obind (nativeOf F soft nillable p v) fun x =>
+      obind (toNative F soft nillable p r) fun xs => .ok (x :: xs)
 
 /-! ## Frequencies (soft validation) -/
 
@@ -352,6 +354,9 @@ structure Ev where
   name : Text
   inc : Nat
   deriving Repr
+
+/-- the increment seen from an instance further up: `pre` is the path from there to here -/
+def Ev.under (pre : FKey) (e : Ev) : Ev := ⟨pre ++ e.key, e.spec, e.name, e.inc⟩
 
 def specOf (fields : List Fld) : List (Text × Nat × Option Nat) :=
   fields.map (fun f => (f.1, f.2.1.minOcc, f.2.1.maxOcc))
@@ -406,10 +411,11 @@ def popIdx : List Nat → Nat × List Nat
 
 /-- strict_arrays: where the element with index `nidx` lives in `items`
     (list after the appends, increments) -/
-def strictSlot (sub : List Fld) (ev : Ev) (items : List Node) (nidx : Nat) : Outcome (List Node × List Ev) :=
-  let s0 : List Node × List Ev := if items.isEmpty then ([fresh sub], [ev]) else (items, [])
+def strictSlot (sub : List Fld) (ev : Ev) (touch : Nat → List Ev) (items : List Node) (nidx : Nat) :
+    Outcome (List Node × List Ev) :=
+  let s0 : List Node × List Ev := if items.isEmpty then ([fresh sub], ev :: touch 0) else (items, [])
   if nidx > s0.1.length then .fault                       -- "Invalid array index"
-  else if nidx = s0.1.length then .ok (s0.1 ++ [fresh sub], s0.2 ++ [ev])
+  else if nidx = s0.1.length then .ok (s0.1 ++ [fresh sub], s0.2 ++ ev :: touch nidx)
   else .ok (s0.1, s0.2)
 
 /-- the idxmap branch: position of the element with (sparse) index `nidx`, updated idxmap and list,
@@ -422,21 +428,34 @@ def lenientSlot (sub : List Fld) (ev : Ev) (m : List (Nat × Nat)) (items : List
     let r := s2cmi m nidx
     (r.1, r.2, pyInsert items r.1 (fresh sub), [ev])
 
+/-- how a member is named in the keys of the frequency table -/
+def memberLabel (F : Facts03) (fields : List Fld) (p : Text) : Text :=
+  match F.freqScope with
+  | .perMember => p
+  | .perClass => match lookupFld fields p with | some (_, _, .obj cid _) => natText cid | _ => p
+
 /-- what one key of the flat document does to the member `p` of the current instance: one round
     of the loop `for pkey in member.path[:-1]` (descending into `p`, `rest` non-empty) or the
-    assignment after the loop (`rest` empty). `cur` is `getattr(cinst, p, None)`, `fk` is
-    `cfreq_key`. Returns the new value of the member and the frequency increments. -/
+    assignment after the loop (`rest` empty). `cur` is `getattr(cinst, p, None)`.
+    Returns the new value of the member and the frequency increments; the keys of the increments
+    (`cfreq_key`) are relative to the current instance: what happens below a member is put under
+    that member's (name, index) by the caller. -/
 def stepMember (F : Facts03) (strict : Bool) :
-    List Fld → Node → FKey → Text → List Text → List Nat → Payload → Outcome (Node × List Ev)
-  | fields, cur, fk, p, [], _, pl =>
-    obind (assignNode cur pl) fun n => .ok (n, [⟨fk, specOf fields, p, pl.len⟩])
-  | fields, cur, fk, p, q :: rest, idxs, pl =>
+    List Fld → Node → Text → List Text → List Nat → Payload → Outcome (Node × List Ev)
+  | fields, cur, p, [], _, pl =>
+    obind (assignNode cur pl) fun n =>
+      .ok (n, ⟨[], specOf fields, p, pl.len⟩ ::
+        (match pl with
+         | .emptyObj fs =>      -- the new instance gets its own (empty) entry in the frequency table
+           if F.freqTouch then [⟨[(memberLabel F fields p, 0)], specOf fs, [], 0⟩] else []
+         | _ => []))
+  | fields, cur, p, q :: rest, idxs, pl =>
     match lookupFld fields p with
     | none => .crash "KeyError"
     | some (_, _, .prim _) => .crash "AttributeError"
     | some (_, occ, .obj cid sub) =>
       let label := match F.freqScope with | .perMember => p | .perClass => natText cid
-      let ev : Ev := ⟨fk, specOf fields, p, 1⟩
+      let ev : Ev := ⟨[], specOf fields, p, 1⟩
       if occ.many then
         let ni := popIdx idxs
         let lst : Option (List (Nat × Nat) × List Node) :=
@@ -450,13 +469,16 @@ def stepMember (F : Facts03) (strict : Bool) :
           -- (position, idxmap, list, increments)
           let slot : Outcome (Nat × List (Nat × Nat) × List Node × List Ev) :=
             if strict then
-              obind (strictSlot sub ev items ni.1) fun s => .ok (ni.1, m, s.1, s.2)
+              obind (strictSlot sub ev
+                  (fun i => if F.freqTouch then [⟨[(label, i)], specOf sub, [], 0⟩] else []) items ni.1)
+                fun s => .ok (ni.1, m, s.1, s.2)
             else .ok (lenientSlot sub ev m items ni.1)
           obind slot fun sl =>
             match sl.2.2.1[sl.1]? with
             | some (.obj child) =>
-              obind (stepMember F strict sub (getAttr child q) (fk ++ [(label, ni.1)]) q rest ni.2 pl) fun r =>
-                .ok (.arr sl.2.1 (setAt sl.2.2.1 sl.1 (.obj (setAttr child q r.1))), sl.2.2.2 ++ r.2)
+              obind (stepMember F strict sub (getAttr child q) q rest ni.2 pl) fun r =>
+                .ok (.arr sl.2.1 (setAt sl.2.2.1 sl.1 (.obj (setAttr child q r.1))),
+                  sl.2.2.2 ++ r.2.map (Ev.under [(label, ni.1)]))
             | _ => .crash "IndexError"
       else
         let inst : Option (Attrs × List Ev) :=
@@ -467,17 +489,17 @@ def stepMember (F : Facts03) (strict : Bool) :
         match inst with
         | none => .crash "unmodelled"
         | some (child, ev0) =>
-          obind (stepMember F strict sub (getAttr child q) (fk ++ [(label, 0)]) q rest idxs pl) fun r =>
-            .ok (.obj (setAttr child q r.1), ev0 ++ r.2)
+          obind (stepMember F strict sub (getAttr child q) q rest idxs pl) fun r =>
+            .ok (.obj (setAttr child q r.1), ev0 ++ r.2.map (Ev.under [(label, 0)]))
 
 /-- one key of the flat document applied to the request object: `member.path` walked from the
     root, `_safe_set` of what changed -/
-def walk (F : Facts03) (strict : Bool) (fields : List Fld) (attrs : Attrs) (fk : FKey)
+def walk (F : Facts03) (strict : Bool) (fields : List Fld) (attrs : Attrs)
     (path : List Text) (idxs : List Nat) (pl : Payload) : Outcome (Attrs × List Ev) :=
   match path with
   | [] => .crash "IndexError"
   | p :: rest =>
-    obind (stepMember F strict fields (getAttr attrs p) fk p rest idxs pl) fun r =>
+    obind (stepMember F strict fields (getAttr attrs p) p rest idxs pl) fun r =>
       .ok (setAttr attrs p r.1, r.2)
 
 mutual
@@ -522,12 +544,12 @@ def stepKey (F : Facts03) (cfg : Cfg) (fields : List Fld) (table : List (Text ×
     | none =>
       if kv.2 = [some F.emptyMarker] then
         let pl := if mem.many then Payload.emptyArr else Payload.emptyObj mem.fields
-        obind (walk F cfg.strict fields st.1 [] mem.path (findIdx kv.1) pl) fun r =>
+        obind (walk F cfg.strict fields st.1 mem.path (findIdx kv.1) pl) fun r =>
           .ok (r.1, st.2 ++ r.2)
       else .ok st
     | some p =>
-      obind (toNative F p kv.2) fun vs =>
-        obind (walk F cfg.strict fields st.1 [] mem.path (findIdx kv.1) (.prims mem.many vs)) fun r =>
+      obind (toNative F cfg.soft mem.nillable p kv.2) fun vs =>
+        obind (walk F cfg.strict fields st.1 mem.path (findIdx kv.1) (.prims mem.many vs)) fun r =>
           .ok (r.1, st.2 ++ r.2)
 
 def sortDoc (F : Facts03) (doc : Doc) : Doc := sortBy (fun a b => keyLt F a.1 b.1) doc
@@ -546,10 +568,10 @@ def decode (F : Facts03) (cfg : Cfg) (fields : List Fld) (doc : Doc) : Outcome N
 /-- a value of the flat dict it returns: a single native value, a list (primitive array), or the
     marker of an empty array of objects -/
 inductive EncVal where
-  | one (v : Leaf)
-  | many (vs : List Leaf)
+  | one (p : PK) (v : Leaf)
+  | many (p : PK) (vs : List Leaf)
   | empty
-  deriving Repr, DecidableEq
+  deriving Repr
 
 def idxSeg (n : Text) (i : Nat) : Text := n ++ '[' :: (natText i ++ [']'])
 
@@ -561,10 +583,10 @@ def enumFrom {α : Type} : Nat → List α → List (Nat × α)
 mutual
 /-- `object_to_simple_dict(cls, inst, retval, prefix)`; `minOcc` = `get_cls_attrs(cls).min_occurs` -/
 def encTy (delim : Text) (pfx : List Text) (minOcc : Nat) (inst : Node) : Ty → List (Text × EncVal)
-  | .prim _ =>
+  | .prim p =>
     match inst with
-    | .none => if minOcc = 0 then [] else [(joinKey delim pfx, .one .none)]
-    | .leaf v => [(joinKey delim pfx, .one v)]
+    | .none => if minOcc = 0 then [] else [(joinKey delim pfx, .one p .none)]
+    | .leaf v => [(joinKey delim pfx, .one p v)]
     | _ => []
   | .obj _ fs =>
     match inst with
@@ -575,7 +597,7 @@ def encFields (delim : Text) (pfx : List Text) (attrs : Attrs) : List Fld → Li
   | [] => []
   | (n, occ, t) :: r =>
     (match occ.many, getAttr attrs n, t with
-      | true, .leaves vs, .prim _ => [(joinKey delim (pfx ++ [n]), .many vs)]
+      | true, .leaves vs, .prim p => [(joinKey delim (pfx ++ [n]), .many p vs)]
       | true, .arr _ items, .obj _ _ =>
         if items.isEmpty then [(joinKey delim (pfx ++ [n]), .empty)]
         else (enumFrom 0 items).flatMap (fun ie => encTy delim (pfx ++ [idxSeg n ie.1]) occ.minOcc ie.2 t)
@@ -591,8 +613,8 @@ def encode (delim : Text) (fields : List Fld) (inst : Node) : List (Text × EncV
 
 /-- what a client puts on the wire for a flat dict: every native value as text -/
 def encValTexts (F : Facts03) : EncVal → List (Option Text)
-  | .one v => [leafText v]
-  | .many vs => vs.map leafText
+  | .one p v => [leafText F p v]
+  | .many p vs => vs.map (leafText F p)
   | .empty => [some F.emptyMarker]
 
 def toDoc (F : Facts03) (flat : List (Text × EncVal)) : Doc :=
